@@ -535,6 +535,20 @@ impl Ctx {
         &self.violations
     }
 
+    /// Raw accounting for a companion binary that reports to a parent check (C17 / C19).
+    #[must_use]
+    pub fn export(&self) -> Value {
+        json!({
+            "evaluations": self.evaluations,
+            "nontrivial_keys": self.nontrivial.iter().copied().collect::<Vec<u64>>(),
+            "samples": self.samples,
+            "classes": self.labels,
+            "violations": self.violations,
+            "inconclusive": self.inconclusive,
+            "extra": self.extra,
+        })
+    }
+
     /// Write evidence + replay files, print the contract lines, return exit code.
     pub fn finish(mut self) -> i32 {
         let wall = self.start.elapsed().as_secs_f64();
